@@ -46,4 +46,12 @@ def jobs(tier):
     return js
 
 
-MANIFEST = {"text": "tbd", "note": "tbd"}
+MANIFEST = {
+    "text": "Bounded model checking of the whole core on the OS model: (a) for every errno value a handler may leave "
+            "behind and every ready-set of a poll batch (one job per set) no event is dropped, user data matches, "
+            "one-shot sources fire once, quit returns the exact code; (b) one job per source kind (descriptor, timer, "
+            "signal, path, pid, task) x driving mode (dispatch / blocking loop ended by quit or by stopping all) x "
+            "owner paused x one-shot: the event reaches exactly the registering module while RUNNING",
+    "note": "ready-sets, kinds and modes are per-job constants; errno and quit code are free; kernel = OS model (epoll "
+            "level-triggered + EPOLLONESHOT, timerfd/signalfd/inotify/pidfd/eventfd as slots); task = deferred call",
+}
